@@ -3,6 +3,7 @@ import warnings
 from collections.abc import Iterable
 
 from .vector import Vector
+from .alias_tracker import _ALIAS_TRACKER
 
 from .naming import _sanitize_user_name
 
@@ -855,6 +856,9 @@ class Table(Vector):
 			for col_idx, row_spec, val in staged:
 				target = self._underlying[col_idx]
 				if id(target) not in trial:
+					# the copies below are never shared; a real column can be (the caller may have
+					# built another Vector over its storage tuple) - refuse before anything is written
+					_ALIAS_TRACKER.check_writable(target, id(target._underlying))
 					trial[id(target)] = target.copy()
 				trial[id(target)][row_spec] = val
 		
